@@ -40,6 +40,7 @@ pub struct TraceEvent {
 }
 
 thread_local! {
+    static NOTIFY: Rc<tokio::sync::Notify> = Rc::new(tokio::sync::Notify::new());
     static EVENTS: RefCell<Vec<TraceEvent>> = RefCell::new(Vec::new());
     static T0: RefCell<Option<std::time::Instant>> = RefCell::new(None);
 }
@@ -83,9 +84,20 @@ impl tracing::Subscriber for Capture {
         let actor = ACTOR.try_with(|a| *a).ok();
         let ev = TraceEvent { at_ms: virtual_ms(), actor, message, fields };
         let _ = EVENTS.try_with(|e| e.borrow_mut().push(ev));
+        let _ = NOTIFY.try_with(|n| n.notify_one());
     }
     fn enter(&self, _span: &tracing::span::Id) {}
     fn exit(&self, _span: &tracing::span::Id) {}
+}
+
+/// Signalled whenever a client tracing event is captured (or by `poke`), so scenario control
+/// loops can wait for events instead of polling the virtual clock.
+pub fn event_notify() -> Rc<tokio::sync::Notify> {
+    NOTIFY.with(|n| n.clone())
+}
+
+pub fn poke() {
+    let _ = NOTIFY.try_with(|n| n.notify_one());
 }
 
 pub fn take_events() -> Vec<TraceEvent> {
@@ -243,6 +255,8 @@ impl World {
             t.abort();
         }
         *self.server.borrow_mut() = None;
+        // the dead process's socket goes silent; its leftover tasks see nothing but timeouts
+        self.net.kill(server_addr());
     }
 
     /// A library client using only the public API.
